@@ -19,6 +19,9 @@ pub struct Case {
     /// when set: (corpus lines, requested merges) — the table is produced by train_bpe
     #[serde(default)]
     pub trained: Option<(Vec<String>, usize)>,
+    /// see c03::Case::long_word
+    #[serde(default)]
+    pub long_word: usize,
 }
 
 pub struct C02;
@@ -32,7 +35,7 @@ impl Prop for C02 {
         crate::fuzzdec::c02(bytes)
     }
     const RULE: &'static str = "random well-formed merge tables (<= 48 merges, occasionally 160) and tables produced by train_bpe on generated corpora (1-40 merges requested) x texts mixing words over the table alphabet with arbitrary Unicode fragments, whitespace runs of all White_Space code points, leading/trailing whitespace x max_vocab_size x special configs with prefix/suffix x use_graphemes; oracle: decode(encode(s)) is a prefix of s whose remainder is whitespace only (equal if s has no trailing whitespace), ids < vocab_size, prefix/suffix ids frame the output, concatenated table byte strings are valid UTF-8 and equal the decoded text. Non-trivial: some emitted id >= 256 and (inner whitespace run >= 2 characters, trailing whitespace, or a multi-byte character split across tokens). Distinct = distinct serialised case.";
-    const ESSENTIAL: &'static [&'static str] = &["merged_id", "trailing_ws", "multibyte_split", "prefix_suffix", "trained_table"];
+    const ESSENTIAL: &'static [&'static str] = &["merged_id", "trailing_ws", "multibyte_split", "prefix_suffix", "trained_table", "word_longer_than_65536_bytes"];
 
     fn budget(tier: Tier) -> Budget {
         match tier {
@@ -80,6 +83,7 @@ impl Prop for C02 {
                     graphemes,
                     special: special.clone(),
                     trained: Some((lines.clone(), requested)),
+                    long_word: 0,
                 })
             });
         let random = (prop_oneof![12 => table_strategy(48), 1 => table_strategy(160)], special_cfg())
@@ -92,14 +96,16 @@ impl Prop for C02 {
                     prop_oneof![6 => t1, 4 => t2, 2 => gen::text(10), 1 => gen::text(60)],
                     max_vocab_strategy(n),
                     any::<bool>(),
+                    prop_oneof![400 => Just(0usize), 1 => 14000usize..=24000],
                 )
-                    .prop_map(move |(text, max_vocab, graphemes)| Case {
+                    .prop_map(move |(text, max_vocab, graphemes, long_word)| Case {
                         table: table.clone(),
                         text,
                         max_vocab,
                         graphemes,
                         special: special.clone(),
                         trained: None,
+                        long_word,
                     })
             });
         prop_oneof![6 => random, 1 => trained].boxed()
@@ -152,6 +158,25 @@ impl Prop for C02 {
             &trained_case
         } else {
             c
+        };
+        let long_case;
+        let c = if c.long_word > 0 {
+            out.label("long_word");
+            long_case = Case { text: super::c03::with_long_word(&c.text, c.long_word), long_word: 0, ..c.clone() };
+            out.label_if(long_case.text.len() > 65536, "word_longer_than_65536_bytes");
+            &long_case
+        } else {
+            c
+        };
+        // long texts are abbreviated in messages
+        let short = |t: &str| -> String {
+            if t.len() <= 300 {
+                format!("{t:?}")
+            } else {
+                let head: String = t.chars().take(120).collect();
+                let tail: String = t.chars().rev().take(60).collect::<Vec<_>>().into_iter().rev().collect();
+                format!("{head:?} … {tail:?} ({} bytes)", t.len())
+            }
         };
         ensure!(out, c.table.is_well_formed(), "harness generated an ill-formed table");
         let path = c.table.save("c02.merges");
@@ -231,14 +256,14 @@ impl Prop for C02 {
                 return out;
             }
         };
-        ensure!(out, d == concat, "de_tokenize gives {d:?} but the table byte strings concatenate to {concat:?}");
-        ensure!(out, c.text.starts_with(&d), "decoded text {d:?} is not a prefix of the input {:?}", c.text);
+        ensure!(out, d == concat, "de_tokenize gives {} but the table byte strings concatenate to {}", short(&d), short(&concat));
+        ensure!(out, c.text.starts_with(&d), "decoded text {} is not a prefix of the input {}", short(&d), short(&c.text));
         let rest = &c.text[d.len()..];
-        ensure!(out, rest.chars().all(char::is_whitespace), "input and decoded text differ by more than trailing whitespace: rest {rest:?}");
+        ensure!(out, rest.chars().all(char::is_whitespace), "input and decoded text differ by more than trailing whitespace: rest {}", short(rest));
         let trailing = c.text.chars().last().is_some_and(char::is_whitespace);
         out.label_if(trailing, "trailing_ws");
         if !trailing {
-            ensure!(out, d == c.text, "no trailing whitespace but decode(encode(s)) = {d:?} != {:?}", c.text);
+            ensure!(out, d == c.text, "no trailing whitespace but decode(encode(s)) = {} != {}", short(&d), short(&c.text));
         } else {
             // exactly the trailing whitespace run may be missing, nothing more
             let trimmed = c.text.trim_end();
